@@ -83,13 +83,38 @@ def structured_literals():
                 out.append(b'x=[' + eq + b'[' + bytes([b]) + b'z]' + eq + b']\n')
     out += [b'x="a\\z  \n  b"\n', b'x="a\\\nb"\n', b'x="\\*\\#\\-\\|\\+\\^"\n', b'x="\\a\\b\\f\\n\\r\\t\\v\\\\\\"\\\'"\n',
             b"x='\\a\\b\\f\\n\\r\\t\\v\\\\\\\"\\''\n", b'x=[[\nfirst newline skipped]]\n', b'x=[==[\r\n]]]=]]==]\n',
-            b'x="\\0001" y="\\0145" z="\\14\\15\\0"\n', b'x="\\0" .. "1"\n']
+            b'x="\\0001" y="\\0145" z="\\14\\15\\0"\n', b'x="\\0" .. "1"\n',
+            # outside the reference dialect, lexable by picotool: judged through picotool's own token list
+            b'x=1 --[=[ note ]=]\ny=2\n', b'--[==[ a\n]] b ]==]\nz=3\n', b'x=1e y=0x\n', b'a="\\q" b=2\n', b'x=1\ry=2\r']
+    return out
+
+
+def impl_tiles(src, cname):
+    """[kind, srcStart, srcEnd, outStart, outEnd] (1-based, end exclusive) of picotool's own tokens:
+    source extents from the reported line / column, output extents from the lengths of the codes."""
+    chunks = lexref.chunkings(src).get(cname) or [src]
+    toks, err = lexref.lex_impl(chunks)
+    if toks is None:
+        return []
+    ls = lexref.line_starts(src)
+    starts = []
+    for t in toks:
+        if t._lineno is None or not (0 <= t._lineno < len(ls)):
+            return []
+        starts.append(ls[t._lineno] + t._charno)
+    out = []
+    o = 0
+    for k, t in enumerate(toks):
+        end = starts[k + 1] if k + 1 < len(toks) else len(src)
+        n = len(t.code)
+        out.append([lexref.kind_of(t), starts[k] + 1, end + 1, o + 1, o + n + 1])
+        o += n
     return out
 
 
 def judge_batch(ctx, items, label):
     """items: (name, src, chunking, out). TLC judges; returns counts."""
-    traces = [{'src': list(src), 'out': list(out)} for (_, src, _, out) in items]
+    traces = [{'src': list(src), 'out': list(out), 'itoks': impl_tiles(src, cname)} for (_, src, cname, out) in items]
     if not traces:
         return
     verdicts = ctx.validate('TraceEcho', traces, chunk=20000)
@@ -97,7 +122,7 @@ def judge_batch(ctx, items, label):
         if v[0] == 'ok' and '!rejected:' in name:
             ctx.violation('rejects/' + lexref.shape(src), 'in-dialect source not echoed (%s): %s' % (cname, name.split('!rejected:')[1]),
                           {'kind': 'echo', 'src': list(src), 'chunking': cname})
-        elif v[0] == 'ok':
+        elif v[0] in ('ok', 'ok-by-impl-tokens'):
             ctx.nontrivial += 1
         elif v[0] == 'ood':
             ctx.out_of_domain += 1
@@ -202,9 +227,9 @@ def run(ctx):
     cli_writep8(ctx, open(os.path.join(core.VERIF, 'fixtures', 'lua', 'every_node.lua'), 'rb').read())
     # canaries: a dropped byte outside a literal, a changed byte inside one
     base = b'x="a\\65b" -- c\ny=2\n'
-    v = ctx.validate('TraceEcho', [{'src': list(base), 'out': list(base.replace(b'y=2', b'y=3'))},
-                                   {'src': list(base), 'out': list(base.replace(b'\\65', b'B'))},
-                                   {'src': list(base), 'out': list(base.replace(b'\\65', b'A'))}])
+    v = ctx.validate('TraceEcho', [{'src': list(base), 'out': list(base.replace(b'y=2', b'y=3')), 'itoks': []},
+                                   {'src': list(base), 'out': list(base.replace(b'\\65', b'B')), 'itoks': []},
+                                   {'src': list(base), 'out': list(base.replace(b'\\65', b'A')), 'itoks': []}])
     ctx.traces -= 3
     ctx.canary(v[0][0] == 'bytes', 'changed byte outside literal')
     ctx.canary(v[1][0] == 'strval', 'changed literal value')
